@@ -419,6 +419,7 @@ scanfrom(const char *name, FILE *file)
 	s->buf.len = 0;
 	s->buf.cap = 0;
 	s->usebuf = false;
+	s->sawspace = false;
 	s->loc.file = name;
 	s->loc.line = 1;
 	s->loc.col = 0;
@@ -456,13 +457,16 @@ scanclose(void)
 void
 scan(struct token *t)
 {
+	struct scanner *next;
+
 	scanner->sawspace = false;
 	for (;;) {
 		t->kind = scankind(scanner, &t->loc);
 		if (t->kind != TEOF || !scanner->next)
 			break;
+		next = scanner->next;
 		scanclose();
-		scanner = scanner->next;
+		scanner = next;
 		scanopen();
 	}
 	if (scanner->usebuf) {
